@@ -1156,6 +1156,100 @@ let hl_remove heqb l h =
     else { hl_before = l.hl_before; hl_after = l.hl_after; hl_entries = e }
   | None -> l
 
+type 'v spm = { sp_sparse : n list; sp_dense : 'v list; sp_indices : n list }
+
+(** val sp_empty : 'a1 spm **)
+
+let sp_empty =
+  { sp_sparse = []; sp_dense = []; sp_indices = [] }
+
+type 'a out =
+| Val of 'a
+| Panic
+| UB of n
+
+(** val sp_get : 'a1 spm -> n -> 'a1 option out **)
+
+let sp_get m k =
+  match nget m.sp_sparse k with
+  | Some idx ->
+    if N.leb u32MAX idx
+    then Val None
+    else (match nget m.sp_dense idx with
+          | Some v -> Val (Some v)
+          | None -> UB (Npos (XI (XO (XO (XO (XO XH)))))))
+  | None -> Val None
+
+(** val sp_insert : 'a1 spm -> n -> 'a1 -> ('a1 option * 'a1 spm) out **)
+
+let sp_insert m k v =
+  if N.eqb k u32MAX
+  then Panic
+  else let sparse = nrepeat_to m.sp_sparse (add (N.to_nat k) (S O)) u32MAX in
+       (match nget sparse k with
+        | Some idx ->
+          if N.eqb idx u32MAX
+          then Val (None, { sp_sparse = (nset sparse k (nlen m.sp_dense));
+                 sp_dense = (app m.sp_dense (v :: [])); sp_indices =
+                 (app m.sp_indices (k :: [])) })
+          else (match nget m.sp_dense idx with
+                | Some old ->
+                  Val ((Some old), { sp_sparse = sparse; sp_dense =
+                    (nset m.sp_dense idx v); sp_indices = m.sp_indices })
+                | None -> UB (Npos (XI (XI (XO (XO (XI (XO XH))))))))
+        | None -> UB (Npos (XI (XI (XI (XO (XO (XO XH))))))))
+
+(** val sp_remove : 'a1 spm -> n -> ('a1 option * 'a1 spm) out **)
+
+let sp_remove m k =
+  match nget m.sp_sparse k with
+  | Some idx ->
+    let sparse = nset m.sp_sparse k u32MAX in
+    if N.eqb idx u32MAX
+    then Val (None, { sp_sparse = sparse; sp_dense = m.sp_dense; sp_indices =
+           m.sp_indices })
+    else (match nget m.sp_dense idx with
+          | Some res0 ->
+            if negb (N.ltb idx (nlen m.sp_indices))
+            then UB (Npos (XO (XI (XI (XO (XO (XI XH)))))))
+            else let dense = swap_remove m.sp_dense idx in
+                 let indices = swap_remove m.sp_indices idx in
+                 (match nget indices idx with
+                  | Some moved ->
+                    (match nget sparse moved with
+                     | Some _ ->
+                       Val ((Some res0), { sp_sparse =
+                         (nset sparse moved idx); sp_dense = dense;
+                         sp_indices = indices })
+                     | None -> UB (Npos (XI (XI (XO (XI (XO (XI XH))))))))
+                  | None ->
+                    Val ((Some res0), { sp_sparse = sparse; sp_dense = dense;
+                      sp_indices = indices }))
+          | None -> UB (Npos (XO (XI (XO (XO (XO (XI XH))))))))
+  | None -> Val (None, m)
+
+(** val sp_keys : 'a1 spm -> n list **)
+
+let sp_keys m =
+  m.sp_indices
+
+(** val sp_values : 'a1 spm -> 'a1 list **)
+
+let sp_values m =
+  m.sp_dense
+
+(** val strip_max : n list -> n list **)
+
+let rec strip_max r = match r with
+| [] -> []
+| x :: t -> if N.eqb x u32MAX then strip_max t else r
+
+(** val sp_shrink : 'a1 spm -> 'a1 spm **)
+
+let sp_shrink m =
+  { sp_sparse = (rev (strip_max (rev m.sp_sparse))); sp_dense = m.sp_dense;
+    sp_indices = m.sp_indices }
+
 type outcome =
 | Finished
 | Aborted
